@@ -597,7 +597,11 @@ def run(ctx):
                 raise common.HarnessError("numpy oracle rejects an output the checker certified: %s on %r" % (nw, c))
         # (i) correspondence with the model of compute_landscape (shortcut included)
         # (the FUNCTIONS are compared for the attribution: repeated points / empty depths removed; the raw lists for the tie)
-        out_eq_model = isinstance(model, list) and len(model) == 2 and same_cps(normalise(out, bars)[0], model[0], eps)
+        # (on decimal input two exact abscissae of the model can round to ONE float: the code's list then carries a repeated
+        # point which `normalise` removes on the code's side only, so the raw lists - equal point by point within eps - are
+        # accepted as the same function too; a thorough run had reported that rounding edge as a broken correspondence)
+        out_eq_model = isinstance(model, list) and len(model) == 2 and (
+            same_cps(normalise(out, bars)[0], model[0], eps) or (eps > 0 and same_cps(out, model[0], eps)))
         model_fired = int(model[1]) if isinstance(model, list) and len(model) == 2 else 0
         mdl_ok = out_eq_model and same_cps(out, model[0], eps) and model_fired == fired
         if wrong is not None:
